@@ -47,7 +47,18 @@ STORE_RULE = ("one evaluation = one seeded operation sequence over {push bundle,
               "third of the runs a whole node opened on the copy); compared with an in-memory reference map after every operation. Non-trivial = a crash point, an interleaving "
               "or a reopen happened; distinct = distinct canonical log.")
 
+TCPCL_RULE = ("one evaluation = one seeded run: 1..8 bundles (1..4 each way when bidirectional) of seeded encoded length L sent concurrently through real TransferManagers over a simulated "
+              "message wire whose two forwarding tasks park before every message; segment size m biased to {1, 2, divisors of L, L-1..L+2, 1 MiB}; one fault scenario per run out of "
+              "{none, scripted peer stops acknowledging / refuses (each code) after k segments, wire closes or black-holes after message k in either direction}; the scheduler picks the "
+              "direction that proceeds from the seed. Non-trivial = every run (at least one transfer); distinct = distinct canonical log.")
+
 PROPS = {
+    "C11": {"pkg": "pkg/cla/tcpclv4/internal/utils", "binary": "tcpcl.test", "harness": "tcpcl", "focus": "C11", "variants": [""],
+            "budget": {"quick": 45, "thorough": 900}, "level": "exploration", "rule": TCPCL_RULE,
+            "real": ["utils.TransferManager (Send, handle)", "utils.OutgoingTransfer / IncomingTransfer", "msgs.DataTransmissionMessage / DataAcknowledgementMessage / TransferRefusalMessage values", "bpv7 codec"],
+            "stub": ["the byte stream, message codec on the wire and the TCPCL session stages (contact header, SESS_INIT, keep-alive, SESS_TERM): not part of this level - messages travel as values over simulated FIFO channels", "TCP / WebSocket sockets"],
+            "assumptions": COMMON_ASSUME + ["the wire buffers without bound behind the schedule point (like socket buffers), channels towards the managers hold 32 messages like the real message switch"],
+            "required_probes": ["send_success", "send_error", "m_divides_L", "wire_close"]},
     "C08": {"pkg": "pkg/routing", "binary": "routing.test", "harness": "store", "focus": "C08", "variants": [""],
             "budget": {"quick": 60, "thorough": 1200}, "level": "exploration", "rule": STORE_RULE,
             "real": ["storage.Store on badgerhold/badger with real files under /dev/shm", "storage.BundleItem/BundlePart (part files, Load, IsComplete)", "bpv7 reassembly as used by the store", "routing.Core started on the post-crash directory"],
@@ -75,6 +86,10 @@ NODE_NOTE = ("trusted: Go 1.26.8 runtime + testing/synctest fake clock, the harn
              "not covered: real sockets, disk faults below the file API, backward clock jumps; sampling only")
 
 MANIFEST_TEXT = {
+    "C11": {"text": "Real sending and receiving TransferManagers (or a scripted peer) on a simulated message wire under the fake clock: the outgoing XFER_SEGMENT sequence (size <= m, concatenation = encoding, "
+                    "START/END placement), exactly-one identical bundle at the receiver, 'Send returned nil => the receiver has the complete transfer', an error within the acknowledgement timeout otherwise; "
+                    "seeded over (L, m) with divisor bias, concurrent bidirectional transfers, non-acking / refusing peers and wire loss after every message index. Session level (stages, byte stream, WebSocket) is not simulated.",
+            "design_ref": "DESIGN.md §4 C11 (level A), App. A.8", "note": "trusted: synctest fake clock, the wire model, harness oracles; level B (two Clients over a byte stream) not built; sampling only", "technique": DST},
     "C08": {"text": "Seeded operation sequences on the real store against a reference map, with a simulated process kill at every instrumented point of Push/Delete "
                     "(durable state = directory contents at that instant; a store and a node are started on it), forced orders of two concurrent fragment pushes, and "
                     "close/reopen; oracle: exact lookups, byte-identical parts, pending query, one record per bundle with each distinct fragment once, complete iff covered, reassembly = original.",
